@@ -13,6 +13,10 @@ Decided:
     contents and their precision (a single-precision or wrongly indexed twiddle is off by >= 1e-9) and the producer /
     consumer agreement of the twiddle tables, for the reference kernels (all m of the box, incl. the 16-point leaves and
     the bfs driver) and for the AVX C kernels below the assembly leaves (m < 16).
+ S  schedule agreement for every dimension m = 1 .. 8192 (quick) / 65536 (thorough), both CPU paths: the table constructor and the transform
+    invoke the same sequence of drivers (breadth-first 2/16-point, recursive) on the same sub-dimensions with the same
+    twiddle-cursor offsets on entry and exit - the thresholds 16 / 2048 where the algorithm switches are thereby tied
+    together between producer, reference consumer and accelerated consumer.
  U  no uninitialised table read: every twiddle operand is a value the constructor wrote (no output depends on initial
     table memory).
  I  round trip: ifft(fft(z)) has the matrix m*Id within the same tolerance.
@@ -150,6 +154,41 @@ def check_roundtrip(L, name_f, name_i, ctor_f, ctor_i, layout, m, cpu):
     return None, n
 
 
+KIND = __import__('re').compile(r'(bfs_2|bfs_16|rec_16)')
+
+
+def schedule_signature(L, ctor, entry, m, cpu):
+    """driver schedule of the table producer and of the transform: [(phase, driver kind, sub-dimension, cursor offset[, data offset])]"""
+    from ..harness import Ctx
+    from ..trusted import TRUSTED
+    from ..vals import Ptr, is_int
+    c = Ctx(L, cpu, trusted=TRUSTED)
+    c.m.trace_names = {f.name for f in L.functions.values() if KIND.search(f.name)}
+    log = []
+
+    def cb(mach, phase, name, args):
+        cur = data = msub = None
+        for a in args:
+            if isinstance(a, Ptr) and a.obj.kind == 'alloca' and a.obj.fields is not None:
+                v = a.obj.fields.get(a.off)
+                if v and isinstance(v[1], Ptr):
+                    cur = v[1].off
+            elif isinstance(a, Ptr) and a.obj.kind == 'arg' and data is None:
+                data = a.off
+            elif is_int(a) and msub is None:
+                msub = a
+        log.append((phase, KIND.search(name).group(1), msub, cur, data))
+
+    c.m.trace_cb = cb
+    t = c.construct(ctor, [m, 0])
+    fill = list(log)
+    del log[:]
+    data = c.buf('data', 16 * m, 'inout')
+    st, _, _ = c.run(entry, [t, data])
+    del c.m.events[:]
+    return fill, list(log), st
+
+
 def run(tier):
     R = Report('C06', tier)
     L, E = ctx.lib(), ctx.effects()
@@ -205,6 +244,44 @@ def run(tier):
                      witness={'m': bad[0], 'cpu': cpu})
             else:
                 R.ob('ifft-inverts-fft-up-to-m', subj, 'holds')
+    # S: driver schedule and twiddle cursor agree between the table producer and both consumers, for every dimension
+    nsched = 0
+    for (ctor, entry) in (('new_reim_fft_precomp', 'reim_fft'), ('new_reim_ifft_precomp', 'reim_ifft'),
+                          ('new_cplx_fft_precomp', 'cplx_fft'), ('new_cplx_ifft_precomp', 'cplx_ifft')):
+        bad = None
+        ref_use = {}
+        for cpu in ('generic', 'accel'):
+            for k in range(14 if tier == 'quick' else 17):
+                m = 1 << k
+                try:
+                    fill, use, st = schedule_signature(L, ctor, entry, m, cpu)
+                except (Unsupported, NeedEnum) as e:
+                    R.broke('%s m=%d: %s' % (entry, m, e))
+                    continue
+                nsched += 1
+                if st != 'ok':
+                    bad = bad or (m, cpu, 'transform %s' % (st,))
+                    continue
+                if not use:
+                    continue  # trivial dimension: the transform does not consume the table at all
+                # recursive drivers may delegate; the breadth-first drivers and the cursor they see on entry/exit are what must agree
+                # (twiddles consumed by a recursive level shift the cursor of every later breadth-first call)
+                pf = [(p, kd, ms, cur) for (p, kd, ms, cur, d) in fill if kd != 'rec_16']
+                pu = [(p, kd, ms, cur) for (p, kd, ms, cur, d) in use if kd != 'rec_16']
+                if pf != pu:
+                    diff = next((i for i, (a, b) in enumerate(zip(pf, pu)) if a != b), min(len(pf), len(pu)))
+                    bad = bad or (m, cpu, 'table producer and transform disagree at step %d: producer %s, transform %s' % (
+                        diff, pf[diff] if diff < len(pf) else None, pu[diff] if diff < len(pu) else None))
+                if cpu == 'generic':
+                    ref_use[m] = use
+                elif m in ref_use and [x for x in ref_use[m] if x[1] != 'rec_16'] != [x for x in use if x[1] != 'rec_16']:
+                    bad = bad or (m, cpu, 'reference and accelerated transforms follow different driver schedules')
+        if bad:
+            R.ob('twiddle-producer-and-consumers-follow-the-same-schedule', entry, 'refuted', detail='m=%d [%s]: %s' % bad,
+                 key='%s:schedule' % entry, witness={'m': bad[0], 'cpu': bad[1]})
+        else:
+            R.ob('twiddle-producer-and-consumers-follow-the-same-schedule', entry, 'holds', detail='m = 1 .. %d' % (1 << (13 if tier == 'quick' else 16)))
+    R.floor('(transform, m, cpu) schedules compared', nsched, 100)
     # R: tables read-only (E2)
     nro = 0
     for f in sorted(L.exported(), key=lambda f: f.name):
